@@ -1,6 +1,8 @@
 /-
 C06 — statistics equal their definitions on genotypes and the published estimators.
-The property theorems live in `Props/C06G.lean` (genotype level) and `Props/C06P.lean` (estimator formulas), namespace `Sfs.C06`.
+The property theorems live in `Props/C06G.lean` (genotype level), `Props/C06P.lean` (estimator formulas) and
+`Props/C06E.lean` (the spectrum survives the text pipe between `create` and `stat` exactly), namespace `Sfs.C06`.
 -/
 import SfsModel.Props.C06G
 import SfsModel.Props.C06P
+import SfsModel.Props.C06E
